@@ -27,11 +27,16 @@ def parse_module(path):
   """-> (META literal, {funcname: FunctionDef})"""
   src = open(path).read()
   tree = ast.parse(src, filename=path)
-  meta, funcs = None, {}
+  meta, funcs, consts = None, {}, {}
   for node in tree.body:
     if isinstance(node, ast.Assign) and len(node.targets) == 1 and \
         isinstance(node.targets[0], ast.Name) and node.targets[0].id == "META":
-      meta = ast.literal_eval(node.value)
+      meta = eval(compile(ast.Expression(node.value), path, "eval"), {"__builtins__": {}}, consts)
+    elif isinstance(node, ast.Assign) and len(node.targets) == 1 and isinstance(node.targets[0], ast.Name):
+      try:
+        consts[node.targets[0].id] = ast.literal_eval(node.value)
+      except Exception:
+        pass
     elif isinstance(node, ast.FunctionDef):
       funcs[node.name] = node
   return src, meta, funcs
